@@ -575,6 +575,48 @@ def check_deep_models(ctx, rng, clean):
                         ctx.event('deep-query-raised')
 
 
+def check_signing_queries_terminate(ctx, rng):
+    """Every query on an accepted model terminates - also the signing check on schemas whose key rules constrain patterns that the
+    packet name has bound (the delicate template schemas of C12), for key names that satisfy and that fail those constraints.  Every
+    call runs under its own interpreter-step budget."""
+    done = 0
+    for schema in lvs.template_schemas(rng, True):
+        text = lvs.schema_text(schema)
+        fns_lib, fns_ref = lvs.fns_for(schema)
+        try:
+            ck = Checker(compile_lvs(text), fns_lib)
+        except Exception:   # noqa
+            continue
+        ref = lvs.Ref(schema, fns_ref)
+        alphabet = [lvs.lit(t) for t in ref.literals()] + [rc.comp(8, b'zz')]
+        names = ref.directed_names(rng, alphabet, 3)
+        matching = [n for n in names if ref.match(n)][:40]
+        pairs = [([lvs.lit(t) for t in pn], [lvs.lit(t) for t in kn]) for pn, kn in schema.get('probes', [])]
+        pairs += [(p_, k_) for p_ in matching[:25] for k_ in matching[:25]]
+        # near misses of key names: one component replaced (constraints on carried patterns then fail)
+        for p_ in matching[:10]:
+            for k_ in matching[:10]:
+                if k_:
+                    k2 = list(k_)
+                    k2[rng.randrange(len(k2))] = rng.choice(alphabet)
+                    pairs.append((p_, k2))
+        nn = len(ck.model.nodes)
+        for (p_, k_) in pairs[:900]:
+            qb = 400 * (nn + 2) * (len(p_) + len(k_) + 2) + 30000
+            try:
+                with monitors.Steps(limit=qb):
+                    ck.check(p_ if p_ else '/', k_ if k_ else '/')
+                done += 1
+            except monitors.BudgetExceeded:
+                ctx.report('query-does-not-terminate:check', f'check({rc.name_to_uri(p_, canonical=True)}, {rc.name_to_uri(k_, canonical=True)}) on an accepted model exceeded {qb} interpreter events',
+                           {'schema': text})
+                break
+            except Exception:   # noqa
+                pass
+        ctx.case(('signing-queries', text[:80]), nontrivial=True)
+    ctx.event('signing-query-terminated', done)
+
+
 def root_child(model, label):
     try:
         i = int(label.split('.')[0][4:])
@@ -589,6 +631,8 @@ def run(ctx):
     monitors.selftest()
     clean = check_text(ctx, rng)
     check_binary(ctx, rng, clean)
+    check_signing_queries_terminate(ctx, rng)
+    ctx.need_event('signing-query-terminated')
     if ctx.shard == 0:
         check_deep_models(ctx, rng, clean)
         ctx.need_event('deep-model-broken')
